@@ -2,6 +2,7 @@ package jd
 
 import (
 	"encoding/json"
+	"sort"
 
 	"gopkg.in/yaml.v2"
 )
@@ -15,9 +16,36 @@ func renderJson(i interface{}) string {
 }
 
 func renderYaml(i interface{}) string {
-	s, err := yaml.Marshal(i)
+	s, err := yaml.Marshal(orderedForYaml(i))
 	if err != nil {
 		panic(err)
 	}
 	return string(s)
+}
+
+// orderedForYaml fixes the order of mapping keys, the same one renderJson
+// writes. yaml.v2 sorts the keys of a Go map with a comparison that is not
+// a total order ("k07" < "k10" < "k1e3" < "k07"), so what it writes for a
+// map depends on the map's random iteration order.
+func orderedForYaml(i interface{}) interface{} {
+	switch v := i.(type) {
+	case map[string]interface{}:
+		keys := make([]string, 0, len(v))
+		for k := range v {
+			keys = append(keys, k)
+		}
+		sort.Strings(keys)
+		m := make(yaml.MapSlice, 0, len(keys))
+		for _, k := range keys {
+			m = append(m, yaml.MapItem{Key: k, Value: orderedForYaml(v[k])})
+		}
+		return m
+	case []interface{}:
+		a := make([]interface{}, len(v))
+		for j := range v {
+			a[j] = orderedForYaml(v[j])
+		}
+		return a
+	}
+	return i
 }
